@@ -281,15 +281,14 @@ func (e *enc) applyContract(fc *FuncContract, callee *ssa.Function, c *ssa.CallC
 		// modifies
 		if fc.ModAll || (!fc.HasMod && !fc.Trusted) {
 			e.havocAll()
-			e.bumpFrontier()
 		} else {
 			for _, m := range fc.Modifies {
 				e.havocLoc(m, env)
 			}
-			if len(fc.Modifies) > 0 || !fc.Trusted {
-				e.bumpFrontier()
-			}
 		}
+		// the callee may allocate: the frontier only grows (results are allocated before the new frontier,
+		// `fresh(r)` places them at or after the old one)
+		e.bumpFrontier()
 		for i, t := range rts {
 			r := e.freshVal(fmt.Sprintf("r.%s.%d", symSafe(siteName), i), t)
 			e.assumeAllocatedNow(r)
@@ -485,6 +484,8 @@ func (e *enc) runDefers() {
 }
 
 func (e *enc) ret(x *ssa.Return) {
+	e.coverOrd++
+	e.cover(fmt.Sprintf("return#%d", e.coverOrd), x.Pos())
 	if e.fc == nil {
 		return
 	}
